@@ -112,6 +112,7 @@ var (
 	fExtra    = flag.String("extra", "", "extra flags passed to the worker binary")
 	fFirst    = flag.Uint64("first-seed", 0, "debugging: use this as the first run seed instead of deriving it from VERIF_SEED")
 	fOnlyKey  = flag.String("only", "", "debugging: only handle violations whose key contains this text")
+	fEnum     = flag.String("enumerate", "", "bounded systematic sub-mode: \"L2\" = after the seeded exploration also run the fixed tiny scenario (tier enum) under every tape with one deviation from the all-zero tape (any position, values 1..3) and every tape with two deviations (value 1) among the first L2 positions")
 	fSelftest = flag.Int("selftest", 0, "determinism self-test: run this many seeds three times (GOMAXPROCS 1, 4, 16, separate processes) and compare the event-log fingerprints")
 )
 
@@ -537,6 +538,15 @@ func main() {
 	wg.Wait()
 	sort.Slice(results, func(i, j int) bool { return results[i].Spec.Seed < results[j].Spec.Seed })
 	exploreWall := time.Since(t0)
+	var enumDesc map[string]any
+	if *fEnum != "" {
+		ers, desc, err := enumerate()
+		enumDesc = desc
+		if err != nil && workerErr == nil {
+			workerErr = err
+		}
+		results = append(results, ers...)
+	}
 
 	// aggregate
 	known := loadKnown()
@@ -720,6 +730,7 @@ func main() {
 		"violation_classes":   keyCount,
 		"known_findings_seen": klines,
 		"tree_hash":           *fTree,
+		"bounded_enumeration": enumDesc,
 		"components": map[string]string{
 			"real (instrumented at build time)": "bleve top level, index/scorch, index/upsidedown, search/collector",
 			"real (not instrumented)":           "zapx v11-v17, bbolt, roaring, vellum, mmap-go, goleveldb, moss, gtreap, analysis, mapping, searchers, highlighters; files on tmpfs",
@@ -803,6 +814,109 @@ func selftest(base uint64, extra []string) {
 		os.Exit(2)
 	}
 	os.Exit(0)
+}
+
+// enumerate runs the bounded systematic sub-mode and returns its results and a description.
+func enumerate() ([]Result, map[string]any, error) {
+	l2, _ := strconv.Atoi(*fEnum)
+	base := Spec{Property: *fProp, Tier: "enum", Seed: 0, Replay: true, Tape: []uint32{0}}
+	// the all-zero tape first: its consumed length bounds the positions worth deviating at
+	f, err := os.CreateTemp(tmpDir(), "bsim-enum-*.jsonl")
+	if err != nil {
+		return nil, nil, err
+	}
+	defer os.Remove(f.Name())
+	b, _ := json.Marshal(base)
+	f.Write(append(b, '\n'))
+	f.Close()
+	out := f.Name() + ".out"
+	defer os.Remove(out)
+	cmd := exec.Command(*fBin, "-test.run", "TestWorker", "-test.timeout", "30m", "-bsim.specs", f.Name(), "-bsim.out", out, "-bsim.tape", "-bsim.stop-on-bad=false")
+	cmd.Env = append(os.Environ(), "GOMAXPROCS=2")
+	cmd.Dir = tmpDir()
+	if err := cmd.Run(); err != nil {
+		return nil, nil, fmt.Errorf("enumeration base run: %v", err)
+	}
+	rs, err := readResults(out)
+	if err != nil || len(rs) != 1 {
+		return nil, nil, fmt.Errorf("enumeration base run produced no result: %v", err)
+	}
+	L := len(rs[0].Spec.Tape)
+	var specs []Spec
+	mk := func(dev map[int]uint32) Spec {
+		mx := 0
+		for p := range dev {
+			if p > mx {
+				mx = p
+			}
+		}
+		t := make([]uint32, mx+1)
+		for p, v := range dev {
+			t[p] = v
+		}
+		sp := base
+		sp.Tape = t
+		return sp
+	}
+	for p := 0; p < L; p++ {
+		for v := uint32(1); v <= 3; v++ {
+			specs = append(specs, mk(map[int]uint32{p: v}))
+		}
+	}
+	one := len(specs)
+	for p := 0; p < l2 && p < L; p++ {
+		for q := p + 1; q < l2 && q < L; q++ {
+			specs = append(specs, mk(map[int]uint32{p: 1, q: 1}))
+		}
+	}
+	// fan out
+	var mu sync.Mutex
+	var all []Result
+	var firstErr error
+	var wg sync.WaitGroup
+	nw := *fWorkers
+	for w := 0; w < nw; w++ {
+		wg.Add(1)
+		go func(w int) {
+			defer wg.Done()
+			sf, err := os.CreateTemp(tmpDir(), "bsim-enum-*.jsonl")
+			if err != nil {
+				return
+			}
+			bw := bufio.NewWriter(sf)
+			n := 0
+			for i := w; i < len(specs); i += nw {
+				b, _ := json.Marshal(specs[i])
+				bw.Write(b)
+				bw.WriteByte('\n')
+				n++
+			}
+			bw.Flush()
+			sf.Close()
+			defer os.Remove(sf.Name())
+			o := sf.Name() + ".out"
+			defer os.Remove(o)
+			cmd := exec.Command(*fBin, "-test.run", "TestWorker", "-test.timeout", "6h", "-bsim.specs", sf.Name(), "-bsim.out", o, "-bsim.stop-on-bad=false")
+			cmd.Env = append(os.Environ(), "GOMAXPROCS=2")
+			cmd.Dir = tmpDir()
+			var stderr bytes.Buffer
+			cmd.Stderr = &stderr
+			rerr := cmd.Run()
+			rs, perr := readResults(o)
+			mu.Lock()
+			all = append(all, rs...)
+			if (rerr != nil || perr != nil || len(rs) != n) && firstErr == nil {
+				firstErr = fmt.Errorf("enumeration worker %d: %v %v (%d of %d specs): %s", w, rerr, perr, len(rs), n, tail(stderr.String(), 2000))
+			}
+			mu.Unlock()
+		}(w)
+	}
+	wg.Wait()
+	desc := map[string]any{"scenario": "fixed tiny scenario (2 writers x 2 batches, 1 observer, 1 held reader, 1 forced merge)", "tape_length_of_all_zero_run": L,
+		"one_deviation_tapes": one, "two_deviation_tapes": len(specs) - one, "two_deviation_window": l2, "runs": len(all),
+		"exhaustive_within_bound": firstErr == nil && len(all) == len(specs),
+		"bound": "every tape that differs from the all-zero tape (lowest-named task first, identity select order) at one position (values 1..3) or at two positions below the window (value 1)"}
+	return all, desc, firstErr
 }
 
 func sanitize(s string) string {
